@@ -30,6 +30,11 @@ def bounds(tier):
     return "handshake token sequences of depth <= %d over 17 tokens; all 65536 frame headers; 9 extreme lengths; every single-byte corruption (8 bit flips, 00, FF) and truncation of valid streams" % (3 if tier == "quick" else 4)
 
 
+def trace_variant(desc, tier):
+    """With trace logging enabled: the handshake / proxy grammars, corruptions of valid streams and the legal-frame grammar (not the 65536 headers, not the random part)."""
+    return desc["part"] in ("hs-tokens", "hs-corrupt", "hs-special", "hs-fields", "px-special", "fr-lengths", "fr-corrupt", "fr-valid") and (desc["part"] != "hs-tokens" or tier == "quick")
+
+
 def tasks(tier, seed):
     ts = []
     depth = 3 if tier == "quick" else 4
